@@ -944,8 +944,14 @@ func newScanner(i io.Reader) *bufio.Scanner {
 				return i + 1, data[0:i], nil
 			}
 			advance = i + 1
-			if len(data) > i+1 && data[i+1] == '\n' {
-				advance += 1
+			if len(data) > i+1 {
+				if data[i+1] == '\n' {
+					advance += 1
+				}
+			} else if !atEOF {
+				// The carriage return is the last byte read so far: request more data
+				// to know whether it is followed by a newline.
+				return 0, nil, nil
 			}
 			return advance, data[0:i], nil
 		}
